@@ -403,6 +403,10 @@ VerifiedImpliesSameCode == (Cardinality(Clients) = 2 /\ MaxInject = 0) => \A c \
 MismatchSilent == Cardinality(Clients) = 2 /\ MaxInject = 0 => \A c \in Clients :
     (cs[c].code # "-" /\ cs[Peer(c)].code # "-" /\ (cs[c].code # cs[Peer(c)].code \/ cs[c].appid # cs[Peer(c)].appid))
        => CountOf(Ev(c), "verifier") = 0 /\ CountOf(Ev(c), "versions") = 0 /\ CountOf(Ev(c), "message") = 0
+\* ... and nobody whose peer used another code (or application id) is ever told that all went well
+MismatchNotHappy == Cardinality(Clients) = 2 /\ MaxInject = 0 => \A c \in Clients :
+    (cs[c].code # "-" /\ cs[Peer(c)].code # "-" /\ (cs[c].code # cs[Peer(c)].code \/ cs[c].appid # cs[Peer(c)].appid) /\ Closed(c))
+       => ClosedResult(c) # "happy"
 NoForgery == InOrderOnce /\ \A c \in Clients : Cardinality(Clients) = 2 =>
     \A i \in 1..CountOf(Ev(c), "versions") : ValuesOf(Ev(c), "versions")[i] = "ver:" \o Peer(c)
 
